@@ -311,66 +311,119 @@ Example c17_pipe_reregistration :
 Proof. vm_compute. repeat split; reflexivity. Qed.
 
 (* ==================================================================================== *)
-(* C17-F4 (known finding, reproduced on the real keepers): is every delivered sample fresh?
+(* Freshness (finding C17-F4, fixed: PENDING): is every delivered sample fresh?
    [prun_f] threads, from the inputs alone, the request ids whose result has been delivered to the
    windows ([cons]) and the acknowledged ids; [acks_ok]: Band's request ids are unique and non-zero.
-   Refuted: the first check after a check-flag reset (registration, or AddAssetRecords /
-   UpdateAssetRecords of a price-requiring asset) sets TempFetchPriceID to 0, so the next check
-   takes the last acknowledged request for a new one even when it was consumed long ago.  In the
-   witness (N = 1, AcceptedHeightDiff = 40) the oracle is silent from block 60 on, an asset is added
-   at 100, and the check at 140 ends the "outage" (140 - 80 >= 40: every window is wiped) by
-   re-delivering the result consumed at 60: the price is active again with the pre-outage value
-   although no result has arrived. *)
+   Before the repair the first check after a check-flag reset (registration, or AddAssetRecords /
+   UpdateAssetRecords of a price-requiring asset) stored TempFetchPriceID = 0, so the next check
+   took the last acknowledged request for a new one even when it was consumed long ago.  The
+   repaired hook stores TempFetchPriceID = LastFetchPriceID there: whatever was acknowledged before
+   the restart counts as seen, and only a request acknowledged afterwards validates. *)
+
+(* every result a check hands to the windows belongs to a request that was never delivered before *)
+Theorem c17_pipe_fresh : forall ops p cons acked h, acks_ok [] ops ->
+  prun_f pinit [] [] ops = Ok (p, cons, acked) ->
+  holds_C17_fresh cons (delivered_id h (band_begin_block h (p_band p))) = true.
+Proof.
+  intros ops p cons acked h Ha Hr.
+  exact (fresh_always p cons acked h (prun_f_inv ops _ _ _ _ _ _ Ha finv_init Hr)).
+Qed.
+Print Assumptions c17_pipe_fresh.
+
+(* over the whole history: the delivered request ids are pairwise distinct, and each one is a
+   non-zero id that was acknowledged *)
+Theorem c17_pipe_delivered_once : forall ops p cons acked, acks_ok [] ops ->
+  prun_f pinit [] [] ops = Ok (p, cons, acked) ->
+  NoDup cons /\ (forall r, In r cons -> In r acked /\ r <> 0).
+Proof.
+  intros ops p cons acked Ha Hr.
+  exact (delivered_once p cons acked (prun_f_inv ops _ _ _ _ _ _ Ha finv_init Hr)).
+Qed.
+Print Assumptions c17_pipe_delivered_once.
+
+(* both together on one history: an active price is the integer mean of N positive samples that
+   were all delivered after the last wipe of the window, and no request's result was delivered to
+   the windows twice *)
+Theorem c17_pipe_active_fresh : forall ops p gs p' cons acked id tw,
+  Forall op_typed ops -> acks_ok [] ops ->
+  prun_g pinit [] ops = Ok (p, gs) -> prun_f pinit [] [] ops = Ok (p', cons, acked) ->
+  sget (p_store p) id = Some tw -> active tw = true ->
+  let n := f_n (b_msg (p_band p)) in
+  let hist := g_hist (gget gs id) in
+  p' = p /\ NoDup cons /\
+  1 <= n /\ zlen hist >= n /\ Forall (fun x => x > 0) hist /\
+  avg tw = zsum (firstn (Z.to_nat n) hist) / n.
+Proof.
+  intros ops p gs p' cons acked id tw Ht Ha Hg Hf Hs Hact. cbv zeta.
+  pose proof (prun_of_prun_g _ _ _ _ _ Hg) as E1. pose proof (prun_of_prun_f _ _ _ _ _ _ _ Hf) as E2.
+  rewrite E1 in E2. injection E2 as <-.
+  destruct (c17_pipe_delivered_once ops p cons acked Ha Hf) as [Hnd _].
+  destruct (c17_pipe_active_mean ops p gs id tw Ht Hg Hs Hact) as (H1 & H2 & H3 & _ & _ & H6).
+  repeat split; assumption.
+Qed.
+Print Assumptions c17_pipe_active_fresh.
+
+(* the first check after a check-flag reset: validates nothing, delivers nothing, and remembers
+   the last acknowledged id as seen *)
+Theorem c17_band_first_check : forall h b,
+  b_block b <> 0 -> h mod 20 = 0 -> b_check b = false ->
+  let b' := band_begin_block h b in
+  b_temp b' = b_last b /\ b_last b' = b_last b /\ b_check b' = true /\ b_valid b' = false /\
+  b_dheight b' = b_dheight b /\ b_dbool b' = b_dbool b /\ delivered_id h b' = None.
+Proof. exact first_check. Qed.
+Print Assumptions c17_band_first_check.
+
+(* regression for C17-F4 (the witness of the former c17_pipe_fresh_refuted; N = 1,
+   AcceptedHeightDiff = 40): the oracle is silent from block 60 on, an asset is added at 100, the
+   first check after the reset is at 120.  The check at 140 used to end the "outage" by
+   re-delivering the result consumed at 60 (price active again with the pre-outage value 3000000
+   although no result had arrived).  Now it is one more silent check: nothing is delivered, the
+   outage goes on (discard height 80), the price stays inactive. *)
 Definition ex_stale : list pop :=
   [AddAsset true; Register 1 (mkFmsg 7 1 40); Block 20; Ack 1; Result 1 [1000000]; Block 40;
    Ack 2; Result 2 [3000000]; Block 60; Block 80; Block 100; AddAsset true; Block 120].
 
-Theorem c17_pipe_fresh_refuted : exists p cons acked p' tw,
+Example c17_pipe_stale_regression : exists p cons acked p' tw,
   acks_ok [] ex_stale /\ Forall op_typed ex_stale /\
   prun_f pinit [] [] ex_stale = Ok (p, cons, acked) /\
   b_dheight (p_band p) = 80 /\ b_valid (p_band p) = false /\
-  delivered_id 140 (band_begin_block 140 (p_band p)) = Some 2 /\ cons = [2; 1] /\
-  holds_C17_fresh cons (delivered_id 140 (band_begin_block 140 (p_band p))) = false /\
-  kf_C17_4 p cons (Block 140) = true /\
-  b_dbool (band_begin_block 140 (p_band p)) = true /\
-  pstep p (Block 140) = Ok p' /\ sget (p_store p') 1 = Some tw /\
-  active tw = true /\ avg tw = 3000000 /\ vals tw = [3000000].
+  b_temp (p_band p) = 2 /\ b_last (p_band p) = 2 /\ cons = [2; 1] /\
+  delivered_id 140 (band_begin_block 140 (p_band p)) = None /\
+  holds_C17_fresh cons (delivered_id 140 (band_begin_block 140 (p_band p))) = true /\
+  b_dbool (band_begin_block 140 (p_band p)) = false /\
+  b_valid (band_begin_block 140 (p_band p)) = false /\
+  pstep p (Block 140) = Ok p' /\ b_dheight (p_band p') = 80 /\
+  sget (p_store p') 1 = Some tw /\ active tw = false /\ vals tw = [3000000].
 Proof.
   eexists _, _, _, _, _. split.
   { cbn. intuition (try discriminate). }
   split; [repeat constructor; cbn; lia|].
   split; [vm_compute; reflexivity|]. vm_compute. repeat split; reflexivity.
 Qed.
-Print Assumptions c17_pipe_fresh_refuted.
 
-(* outside the class every delivered result is new; and a second delivery happens ONLY at the
-   check that follows such a "first check" (TempFetchPriceID = 0) *)
-Theorem c17_pipe_fresh : forall ops p cons acked h, acks_ok [] ops ->
-  prun_f pinit [] [] ops = Ok (p, cons, acked) ->
-  kf_C17_4 p cons (Block h) = false ->
-  holds_C17_fresh cons (delivered_id h (band_begin_block h (p_band p))) = true.
-Proof.
-  intros ops p cons acked h Ha Hr Hk.
-  exact (fresh_outside_kf p cons acked h (prun_f_inv ops _ _ _ _ _ _ Ha finv_init Hr) Hk).
-Qed.
-Print Assumptions c17_pipe_fresh.
+(* ... and when a request IS acknowledged after the restart, the check delivers it (once): the
+   outage 80..140 >= 40 wipes the window, the fresh sample activates the price (N = 1) *)
+Example c17_pipe_stale_then_fresh :
+  ex_price (ex_stale ++ [Ack 3; Result 3 [7000000]; Block 140]) = Some (true, 7000000, [7000000]) /\
+  ex_price (ex_stale ++ [Ack 3; Result 3 [7000000]; Block 140; Block 160])
+  = Some (false, 7000000, [7000000]).
+Proof. vm_compute. split; reflexivity. Qed.
 
-Theorem c17_pipe_redelivery_only_after_reset : forall ops p cons acked h r, acks_ok [] ops ->
-  prun_f pinit [] [] ops = Ok (p, cons, acked) ->
-  delivered_id h (band_begin_block h (p_band p)) = Some r -> zmem r cons = true ->
-  b_temp (p_band p) = 0 /\ b_check (p_band p) = true.
-Proof.
-  intros ops p cons acked h r Ha Hr Hd Hz.
-  exact (redelivery_only_after_reset p cons acked h r (prun_f_inv ops _ _ _ _ _ _ Ha finv_init Hr) Hd Hz).
-Qed.
-Print Assumptions c17_pipe_redelivery_only_after_reset.
+(* a request acknowledged between the reset and the first check belongs to the configuration
+   before the restart: it counts as seen and is not delivered (second harness regression history:
+   reset by a re-registration during the outage) *)
+Example c17_pipe_restart_marks_seen : exists p cons acked,
+  prun_f pinit [] [] (ex_warm ++ [Block 80; Register 90 (mkFmsg 7 2 40); Block 100]) = Ok (p, cons, acked) /\
+  b_temp (p_band p) = 2 /\ b_last (p_band p) = 2 /\ cons = [2; 1] /\
+  delivered_id 120 (band_begin_block 120 (p_band p)) = None.
+Proof. eexists _, _, _. split; [vm_compute; reflexivity|]. vm_compute. repeat split; reflexivity. Qed.
 
 (* non-vacuity of c17_pipe_fresh: in the warm history every check delivers a new result *)
 Example c17_pipe_fresh_nonvacuous : exists p cons acked,
   acks_ok [] (ex_warm ++ [Ack 3; Result 3 [5]]) /\
   prun_f pinit [] [] (ex_warm ++ [Ack 3; Result 3 [5]]) = Ok (p, cons, acked) /\
-  kf_C17_4 p cons (Block 80) = false /\
-  delivered_id 80 (band_begin_block 80 (p_band p)) = Some 3 /\ cons = [2; 1].
+  delivered_id 80 (band_begin_block 80 (p_band p)) = Some 3 /\ cons = [2; 1] /\
+  holds_C17_fresh cons (delivered_id 80 (band_begin_block 80 (p_band p))) = true.
 Proof.
   eexists _, _, _. split; [cbn; intuition (try discriminate)|].
   split; [vm_compute; reflexivity|]. vm_compute. repeat split; reflexivity.
